@@ -250,8 +250,11 @@ class C14(Property):
     case_timeout = 120  # cases take microseconds; the alarm only guards against a hung interpreter
 
     # -------------------------------------------------------------- cases
-    def _case(self, tree, start, path, strict, single, ast=None, as_segments=None):
+    def _case(self, tree, start, path, strict, single, ast=None, as_segments=None, init=None, history=None):
         c = {"tree": tree, "start": start, "path": path, "strict": strict, "single": single}
+        if history:
+            c["init"] = init
+            c["history"] = history
         if as_segments:
             c["as_segments"] = as_segments
         if ast is not None:
@@ -286,7 +289,7 @@ class C14(Property):
             {"t": "name", "s": "l", "br": False, "sep": False, "escall": False},
             {"t": "slice", "a": None, "b": None, "sep": False}, {"t": "up"}]}
         out.append(self._case(d, 0, "l[:]/..", True, False, ast4))
-        # open: KF-C14-c — tuple path, single+strict, several matches: TypeError from the message formatting
+        # fixed cca5199: tuple path, single+strict, several matches raised TypeError from the message formatting
         out.append(self._case(d, 0, "l/[:]", True, True, None, "tuple"))
         out.append(self._case(d, 0, "l/[:]", True, True, None, "list"))
         # tokenizer quirks kept as regression cases (no AST: correspondence only)
@@ -353,6 +356,11 @@ class C14(Property):
             depth = rng.choice([2, 2, 3, 3, 4])
             schema = cm.rand_schema(rng, depth, rng.choice(["root", None, "r/"]), hostile, pools, top=True)
             tree = cm.number(cm.instantiate(rng, schema))
+            init, history = None, None
+            if rng.random() < 0.15:
+                final, history = cm.rand_history(rng, tree, rng.choice([1, 2, 3]))
+                if history:
+                    init, tree = tree, final
             nodes = list(cm.preorder(tree))
             per_tree = rng.choice([4, 8, 12])
             for _ in range(per_tree):
@@ -371,19 +379,19 @@ class C14(Property):
                 r = rng.random()
                 if r < 0.15:
                     path = _rand_malformed(rng, tree)
-                    yield self._case(tree, start["id"], path, strict, single, None, rng.choice([None] * 9 + ["list"]))
+                    yield self._case(tree, start["id"], path, strict, single, None, rng.choice([None] * 9 + ["list"]), init, history)
                 else:
                     top = rng.random() < 0.3
                     walk_from = tree if top else start
                     steps = _rand_steps(rng, tree, walk_from, rng.choice([0, 1, 1, 2, 2, 3, 3, 4, 5, 6]),
                                         p_miss=rng.choice([0.0, 0.0, 0.1, 0.3]), canon=rng.random() < 0.75)
                     ast = {"top": top, "trail": rng.random() < 0.2, "steps": steps}
-                    yield self._case(tree, start["id"], cm.print_path(ast), strict, single, ast, rng.choice([None] * 17 + ["list", "list", "tuple"]))
+                    yield self._case(tree, start["id"], cm.print_path(ast), strict, single, ast, rng.choice([None] * 17 + ["list", "list", "tuple"]), init, history)
                 made += 1
 
     # -------------------------------------------------------------- implementation
     def run_impl(self, case):
-        root, byid, label = cm.build(case["tree"])
+        root, byid, label = cm.build_case(case)
         start = byid[case["start"]]
         obs = {
             "ops": _ops_obs(case["path"]),
@@ -400,7 +408,7 @@ class C14(Property):
 
     # -------------------------------------------------------------- oracle (spec B on the real code)
     def oracle(self, case):
-        root, byid, label = cm.build(case["tree"])
+        root, byid, label = cm.build_case(case)
         start = byid[case["start"]]
         path, strict, single = case["path"], case["strict"], case["single"]
         fails = []
@@ -426,8 +434,7 @@ class C14(Property):
         if case.get("as_segments"):
             via_segments = _find_obs(start, label, path, single, strict, case["as_segments"])
             if via_segments != observed:
-                fails.append({"clause": "segments-equal-string", "expected": observed, "observed": via_segments,
-                              "several": len(as_list.get("list", [])) > 1})
+                fails.append({"clause": "segments-equal-string", "expected": observed, "observed": via_segments})
         # find() raises LookupError, or ValueError from int() while compiling a malformed bracket; nothing else
         for r in (observed, as_list):
             if r.get("error") not in (None, "LookupError", "ValueError"):
@@ -438,12 +445,15 @@ class C14(Property):
             if cm.print_path(ast) != path:
                 fails.append({"clause": "harness-printing", "expected": cm.print_path(ast), "observed": path})
             # "in sequence order": ascending slices on a Canon path select strictly increasing elements
-            # (node ids are preorder numbers, so document order = increasing id)
+            # (document order = preorder rank in the tree)
             ascending = all(not (st["t"] == "slice" and "c" in st and (st["c"]["v"] or 1) < 0) for st in ast["steps"])
             if cm.canon_ast(ast) and ascending and "list" in as_list:
+                rank = {n["id"]: i for i, n in enumerate(cm.preorder(case["tree"]))}
                 ids = as_list["list"]
-                if any(not isinstance(x, int) for x in ids) or any(a >= b for a, b in zip(ids, ids[1:])):
-                    fails.append({"clause": "sequence-order", "expected": "strictly increasing preorder ids", "observed": ids})
+                ranks = [rank.get(x, -1) for x in ids]
+                if any(r < 0 for r in ranks) or any(a >= b for a, b in zip(ranks, ranks[1:])):
+                    fails.append({"clause": "sequence-order", "expected": "strictly increasing preorder ranks",
+                                  "observed": ids})
             want = _denote_obs(ast, start, label, single, strict)
             lax_several = single and not strict and "one" in want and len(
                 _denote_obs(ast, start, label, False, strict).get("list", [])) > 1
@@ -454,15 +464,6 @@ class C14(Property):
         return fails
 
     def classify(self, case, failure):
-        # KF-C14-c: the path was given as a tuple of != 1 segments, single and strict, several elements match: the
-        # "matched multiple elements" message is formatted with `% path` and raises TypeError
-        if failure.get("clause") == "segments-equal-string":
-            if (case.get("as_segments") == "tuple" and len(case["path"].split("/")) != 1 and case["single"]
-                    and case["strict"] and failure.get("several")
-                    and failure.get("observed") == {"error": "TypeError"}
-                    and failure.get("expected") == {"error": "LookupError"}):
-                return "KF-C14-c"
-            return None
         # KF-C14-a: the path has an `X/..` pair (X a name, index or slice step, `.` steps ignored) and the
         # implementation returns exactly the denotation of the path with those pairs deleted
         if failure.get("clause") != "denotation":
@@ -470,7 +471,7 @@ class C14(Property):
         ast = case.get("ast")
         if ast is None or cm.canon_ast(ast):
             return None
-        root, byid, label = cm.build(case["tree"])
+        root, byid, label = cm.build_case(case)
         start = byid[case["start"]]
         cancelled = _denote_obs(cm.cancel_ups(ast), start, label, case["single"], case["strict"])
         if cancelled == failure.get("observed"):
@@ -524,6 +525,8 @@ class C14(Property):
             t.append("start-below-root")
         if case.get("as_segments"):
             t.append("path-as-%s" % case["as_segments"])
+        if case.get("history"):
+            t.append("tree-after-list-history")
         return sorted(set(t))
 
     def shrink_candidates(self, case):
@@ -546,8 +549,9 @@ class C14(Property):
             p = case["path"]
             for i in range(len(p)):
                 yield dict(case, path=p[:i] + p[i + 1:])
-        for t in cm.shrink_tree_variants(case["tree"], keep_ids=(case["start"],)):
-            yield dict(case, tree=t)
+        if not case.get("history"):
+            for t in cm.shrink_tree_variants(case["tree"], keep_ids=(case["start"],)):
+                yield dict(case, tree=t)
         if case["single"]:
             yield dict(case, single=False)
 
